@@ -72,6 +72,8 @@ const (
 	routeSingleFault      = 9  // as routeSingleName, while every write to this instance's slashing-protection store fails
 	routeBatch2SameTarget = 10 // batch of two by public key: a fresh plain account's attestation with the duty's target
 	// epoch and source 0 first, the duty second (what is recorded for one entry must not borrow from its neighbour)
+	routeWarmSingle = 11 // not a duty at all: an older attestation (source 0, target 1) for the account by the single
+	// path, before anything else (whatever one path remembers about a key, the other paths' writes must reach it)
 	routeStale = 5 // not a duty at all: a batch of two whose entry for the account is an older attestation (source 0,
 	// target 1), which is refused once anything later has been signed; neither duty may become signable through it
 )
@@ -241,6 +243,13 @@ func c14RoutedSequences(prop bool) [][]int {
 		for a := 0; a < 2; a++ {
 			res = append(res, []int{a, 2*routeDecoy + (1 - a)}, []int{2*routeDecoy + a, 1 - a}, []int{2*routeDecoy + a, 2*routeDecoy + (1 - a)})
 		}
+		// An older attestation by the single path first, then one duty inside a batch, then the other by any path.
+		warm := 2 * routeWarmSingle
+		for a := 0; a < 2; a++ {
+			for _, r := range []int{routeBatch2Key, routeBatch2Last, routeBatch2SameTarget} {
+				res = append(res, []int{warm, 2*r + a, 1 - a}, []int{warm, 2*r + a, 2*routeBatch2Key + (1 - a)}, []int{warm, 2*r + a, 2*routeBatch1Name + (1 - a)})
+			}
+		}
 		stale := 2 * routeStale
 		for a := 0; a < 2; a++ {
 			for b := 0; b < 2; b++ {
@@ -287,6 +296,13 @@ func runAssignment(c *rig.Cluster, ids []uint64, t uint32, pair dutyPair, seqs [
 			if symRoute(d) == routeStale {
 				if !pair.a.prop && pair.a.e.T >= 2 && pair.b.e.T >= 2 {
 					signStale(c, id, account)
+				}
+				continue
+			}
+			if symRoute(d) == routeWarmSingle {
+				if !pair.a.prop && pair.a.e.T >= 2 && pair.b.e.T >= 2 && pair.a.e.T < 1<<62 && pair.b.e.T < 1<<62 {
+					n := c.Nodes[id]
+					n.Rig.Signer.SignBeaconAttestation(n.Rig.Ctx, &checker.Credentials{Client: rig.DefaultClient, RequestID: "s", IP: "10.0.0.1"}, account, nil, AttData(Ent{S: 0, T: 1, Root: 9}))
 				}
 				continue
 			}
@@ -432,7 +448,7 @@ func C14(tier string) int {
 	}
 	deadline := time.Now().Add(150 * time.Second)
 	if tier == "thorough" {
-		deadline = time.Now().Add(90 * time.Minute)
+		deadline = time.Now().Add(30 * time.Minute)
 	}
 	type unit struct {
 		n      int
